@@ -275,6 +275,9 @@ def run(ck):
                        'arcs mapped by non-similarities are compared through M(point(t)) (the eccentric angle of an affine image is an affine '
                        'function of the original one, so the parameterisation is preserved)']
     ck.tlc('Affine', 'Affine_MC.cfg', need_actions=['Push'])
+    # the algebra for ALL integer matrices / points (Apalache, unbounded): composition, associativity, det, evaluation commutes, area scales by det
+    ck.apalache('MC_Affine', 'Inv')
+    ck.apalache('MC_Affine', 'Wrong', expect_error=True)
     r = ck.tlc('Affine', 'SPECIFICATION Spec\nCONSTANTS MaxOps = %d\nINVARIANT DumpM\n' % (2 if quick else 3), workers=1, coverage=False)
     seen, matrices = set(), []
     for c in r.cases:
